@@ -80,9 +80,9 @@ type plan struct {
 
 func planOf(thorough bool) plan {
 	if thorough {
-		return plan{pairEvery: 1, frameDraws: 2, shapeBlocks: 4, shapeEvery: 8, shapeFields: 24, compDraws: 1, compEvery: 2, crossDraws: 2,
+		return plan{pairEvery: 1, frameDraws: 1, shapeBlocks: 4, shapeEvery: 8, shapeFields: 24, compDraws: 1, compEvery: 2, crossDraws: 1,
 			types: 400, primRounds: 6, segments: 200, compress: 200, random: 80, large: 13,
-			dcBlocks: 160, dcBlock: 8, dcDepth: 4, mismatch: 20, mismatchPool: 32, resource: 150}
+			dcBlocks: 80, dcBlock: 8, dcDepth: 4, mismatch: 12, mismatchPool: 32, resource: 120}
 	}
 	return plan{pairEvery: 5, frameDraws: 1, shapeBlocks: 2, shapeEvery: 37, shapeFields: 12, compDraws: 1, compEvery: 6, crossDraws: 1,
 		types: 40, primRounds: 1, segments: 20, compress: 20, random: 8, large: 13,
